@@ -75,7 +75,9 @@ ASSUMPTIONS = [
     'notion of stored entries); float32 rounding is outside the rational model (tolerance 2e-5 where float32 arithmetic can '
     'round: a float32 operand or probe together with a division, a power, a number that is not a small multiple of 1/8 or more '
     'than two products in a row; float64 tolerance elsewhere); astype(int) '
-    'is compared with the specification only where the stored parts are integers (cast of the parts, not of the matrix)',
+    'is compared with the specification only where the stored parts are integers (cast of the parts, not of the matrix), and is '
+    'not generated on a sparse part that stores a position twice with non-integer values (scipy truncates every stored value: '
+    '1.5 + 1.5 -> 1 + 1 = 2, the entry 3.0 -> 3; the model has the entries of a matrix, not its storage - counted as outside-domain)',
 ]
 
 
@@ -373,14 +375,33 @@ def stored_parts(o):
     return []
 
 
+def sparse_parts(o):
+    """the sparse matrices among the stored parts"""
+    k = obj_kind(o)
+    return [o.sparse_mat] if k == 'slr' else [o.laplacian] if k == 'lap' else [o.backward, o.forward] if k == 'con' else []
+
+
+def has_duplicate_entries(m):
+    m = m.tocsr()
+    if m.has_canonical_format:
+        return False
+    c = m.copy()
+    c.sum_duplicates()
+    return c.nnz != m.nnz
+
+
 def int_cast_status(o):
     """'exact' (all stored parts are integers), 'unsafe' (a part within 1e-6 of an integer without being one: the
-    truncation is a discrete decision on a rounded number, DESIGN 8) or 'inexact'"""
+    truncation is a discrete decision on a rounded number, DESIGN 8), 'duplicates' (non-integer stored values in a sparse
+    part that stores a position twice: scipy truncates every STORED value, 1.5 + 1.5 -> 1 + 1 = 2, while the matrix entry 3.0
+    truncates to 3; the model has the entries of the matrix, not its storage: outside the domain, ASSUMPTIONS) or 'inexact'"""
     parts = [np.asarray(a, dtype=float).ravel() for a in stored_parts(o)]
     v = np.concatenate(parts) if parts else np.zeros(0)
     d = np.abs(v - np.round(v))
     if np.all(d == 0):
         return 'exact'
+    if any(has_duplicate_entries(m) for m in sparse_parts(o)):
+        return 'duplicates'
     if np.any((d > 0) & (d < 1e-6)):
         return 'unsafe'
     return 'inexact'
@@ -619,6 +640,7 @@ def _no_hidden_zero(a):
 
 SCALARS = [2, -1, 3, 0.5, 0, -2, 1.5]
 TIE_SKIPPED = [0]
+OUTSIDE = [0]              # astype(int) of non-integer duplicate stored entries (outside the domain, counted)
 
 
 def has_tiny_row_sum(o):
@@ -644,7 +666,10 @@ def tie_skip_selftest(ctx):
         raise ToolFailure('tie-skip self-test: the tiny-row-sum test does not separate [0.1, 0.2, -0.3] from [1, 2, -3]')
     if int_cast_status(near) != 'unsafe' or int_cast_status(plain) != 'exact':
         raise ToolFailure('tie-skip self-test: int_cast_status(%r) = %s' % (near.sparse_mat.data.tolist(), int_cast_status(near)))
-    ctx.count('tie-skip:self-test', 2)
+    dup = SparseLR(sparse.csr_matrix((np.array([1.5, 1.5]), np.array([1, 1]), np.array([0, 2, 2])), shape=(2, 2)), [])
+    if int_cast_status(dup) != 'duplicates' or int_cast_status(dup * 2) != 'exact':
+        raise ToolFailure('self-test: int_cast_status of a duplicate stored entry 1.5 + 1.5 = %s' % int_cast_status(dup))
+    ctx.count('tie-skip:self-test', 3)
 
 
 def astype_stmt(rng, o):
@@ -656,6 +681,9 @@ def astype_stmt(rng, o):
     status = int_cast_status(o)
     if status == 'unsafe':
         TIE_SKIPPED[0] += 1
+        return None
+    if status == 'duplicates':
+        OUTSIDE[0] += 1
         return None
     return (dt, status == 'exact')
 
@@ -2208,10 +2236,12 @@ def corpus_cases(ctx):
 
 def run(ctx):
     TIE_SKIPPED[0] = 0
+    OUTSIDE[0] = 0
     tie_skip_selftest(ctx)
     dispatch_obligations(ctx)
     cases = corpus_cases(ctx) + build_cases(ctx)
     ctx.count('tie-skipped:normalize-of-inexact-zero-row', TIE_SKIPPED[0])
+    ctx.count('outside-domain:astype-int-of-non-integer-duplicate-entries', OUTSIDE[0])
     ctx.extra['tolerance'] = {'TOL': str(TOL), 'rule': '|a - b| <= TOL * (1 + max|b|) per vector / matrix; exact whenever the float64 computation is exact'}
     evaluate(ctx, cases)
 
